@@ -369,7 +369,10 @@ def build():
                                    'forall|k: u64| #[trigger] old(conn_io)@.contains_key(k) && !has_id(connections@, k) ==> conn_io@.contains_key(k) && conn_io@[k] == old(conn_io)@[k]',
                                    'forall|k: u64| #[trigger] conn_io@.contains_key(k) ==> old(conn_io)@.contains_key(k) || has_id(connections@, k)'],
                               dec='ips.len() - ip_nx',
-                              after='    proof { assert(ips@.subrange(0, ips@.len() as int) =~= ips@); }',
+                              after='''    proof {
+        assert(ip_nx == ips.len());  // @ob C19.conns.create.every_listed_address_is_attempted
+        assert(ips@.subrange(0, ips@.len() as int) =~= ips@);
+    }''',
                               begin='        let ghost c_pre = connections@; let ghost io_pre = conn_io@; let ghost idx_pre = idx_g;',
                               end="""        proof {
             let n = ip_nx as int;
@@ -423,7 +426,7 @@ def build():
                    C('C19.conns.apply.every_added_link_is_for_a_listed_address_without_a_link_and_no_address_is_used_twice',
                      """exists|src: Seq<int>| #[trigger] added_ok(final(connections)@.subrange(keep_desired(old(connections)@, %(H)s).len() as int, final(connections)@.len() as int),
                 src, new_ips@, old(connections)@, receiver_host@, receiver_port)""" % dict(H=H)),
-                   C('C19.conns.apply.routing_choice_is_forgotten_exactly_when_a_link_was_removed',
+                   C('C11+C19.conns.apply.routing_choice_is_forgotten_exactly_when_a_link_was_removed',
                      """(keep_desired(old(connections)@, %(H)s).len() != old(connections)@.len() ==> *final(last_selected_idx) is None)
             && (keep_desired(old(connections)@, %(H)s).len() == old(connections)@.len() ==> *final(last_selected_idx) == *old(last_selected_idx))""" % dict(H=H)),
                ],
